@@ -106,7 +106,7 @@ def finite(*arrays):
 # running the model in Coq
 # ----------------------------------------------------------------------------------------------
 HEADER = """From Coq Require Import ZArith List PrimFloat.
-From OAS Require Import Scalar Fops Run %s.
+From OAS Require Import Scalar Fops Run Dual DRun %s.
 Import ListNotations.
 Open Scope float_scope.
 """
@@ -152,7 +152,9 @@ class CoqCases:
             while pending and len(running) < jobs:
                 p = pending.pop(0)
                 out = open(p + ".out", "w")
-                pr = subprocess.Popen(["timeout", str(timeout), "coqc"] + COQ_Q + COQ_W + [p],
+                # large literals (dense Jacobians) need a deep parser stack
+                pr = subprocess.Popen(["bash", "-c", "ulimit -s unlimited 2>/dev/null || ulimit -s 1000000 2>/dev/null; exec \"$@\"", "coqc-run",
+                                       "timeout", str(timeout), "coqc"] + COQ_Q + COQ_W + [p],
                                       stdout=out, stderr=subprocess.STDOUT, cwd=d)
                 running.append((pr, p, out))
             still = []
